@@ -78,8 +78,13 @@ def target_spec(draw, kinds=("binary", "continuous")):
         base = draw(st.sampled_from([0, -3, 10, 100]))
         step = draw(st.sampled_from([1, 2, 5]))
         levels = [base + i * step for i in range(n_levels)]
-        if draw(st.booleans()):
+        flavour = draw(st.sampled_from(["int", "half", "eighth", "eighth"]))
+        if flavour == "half":
             levels = [float(v) + 0.5 for v in levels]
+        elif flavour == "eighth":
+            # small-magnitude dyadic values (exact in binary64), several of them inside (-1, 1)
+            shift = draw(st.sampled_from([0, -4, -9]))
+            levels = [(i * step + shift) / 8 for i in range(n_levels)]
         blocks = [draw(st.integers(3, 60)) for _ in levels]
     else:  # multiclass
         n_levels = draw(st.integers(3, 5))
